@@ -227,6 +227,12 @@ def run_group(klepto, group, km, mode, variant=None, cache=None):
         except Exception:
             pass
         src += 'kf = factory(1)   # after factory(2) was decorated and called'
+    if kind == 'partialz':
+        import functools
+        pkw = {'z': val({'t': 'int', 'v': 1})}       # a keyword the function only collects in **kw
+        func = functools.partial(func, **pkw)
+        raw = functools.partial(raw, **pkw)
+        src += 'functools.partial(kf, z=1)'
     if kind == 'partial':
         import functools
         pkw = {'k': val({'t': 'int', 'v': 1})}       # the keyword-only default is 2: the partial binds another value
